@@ -91,30 +91,63 @@ def rule_c08(prog, rep):
     # ---- L3
     fs, fl = prog.need_func('qlisttbl_save'), prog.need_func('qlisttbl_load')
 
-    def guarded_calls(fn, prefix, flag):
+    def closure(fn):
+        seen, work = {fn.key: fn}, [fn]
+        while work:
+            g = work.pop()
+            for x in walk(g.body):
+                if x.get('kind') == 'CallExpr':
+                    for c in prog.callees(g.unit, x):
+                        if getattr(c, 'body', None) is not None and c.unit.rel == UNIT and c.key not in seen and c.static:
+                            seen[c.key] = c
+                            work.append(c)
+        return list(seen.values())
+
+    def flag_controlled_codecs(fn, suffix):
+        """codec calls (q*<suffix>) in fn and its static helpers that execute exactly when a bool parameter of the function
+        containing them is true (flag-aware reachability: unreachable under flag == false, reachable under flag == true)"""
+        from .dataflow import ReachingDefs
         out = []
-        for x in walk(fn.body):
-            if x.get('kind') == 'IfStmt' and flag in canon(children(x)[0]):
-                for y in walk(children(x)[1]):
-                    if y.get('kind') == 'CallExpr' and (prog.callee_name(y) or '').startswith(prefix):
-                        out.append(prog.callee_name(y))
-        return out
-    enc = guarded_calls(fs, 'q', 'encode')
-    dec = guarded_calls(fl, 'q', 'decode')
-    enc = [e for e in enc if e.endswith('_encode')]
-    dec = [d for d in dec if d.endswith('_decode')]
+        uncontrolled = []
+        for g in closure(fn):
+            flags = [p_.get('name') for p_ in g.params if qtype(p_) in ('bool', '_Bool', 'const bool')]
+            for n in g.cfg.nodes:
+                if not isinstance(n.ast, dict) or n.kind == 'macro':
+                    continue
+                for y in walk(n.ast):
+                    if y.get('kind') == 'CallExpr' and (prog.callee_name(y) or '').startswith('q') and (prog.callee_name(y) or '').endswith(suffix):
+                        ctl = False
+                        for fl_ in flags:
+                            on = ReachingDefs(g, {fl_: True})
+                            off = ReachingDefs(g, {fl_: False})
+                            if n.id in on.IN and n.id not in off.IN:
+                                ctl = True
+                        (out if ctl else uncontrolled).append(prog.callee_name(y))
+        return out, uncontrolled
+    enc, enc_u = flag_controlled_codecs(fs, '_encode')
+    dec, dec_u = flag_controlled_codecs(fl, '_decode')
     rep.instance('L3')
-    ok = len(enc) == 1 and len(dec) == 1 and enc[0][:-7] == dec[0][:-7]
-    rep.oblige('L3', ok, {'save_encoder': enc, 'load_decoder': dec})
+    ok = len(set(enc)) == 1 and len(set(dec)) == 1 and enc[0][:-7] == dec[0][:-7] and not enc_u and not dec_u
+    rep.oblige('L3', ok, {'save_encoder': enc, 'load_decoder': dec, 'not_flag_controlled': enc_u + dec_u})
     if not ok:
-        rep.violation('L3', fl, fl.line, 'codec', 'save encodes with %s (under `encode`) but load decodes with %s (under `decode`): not an '
-                      'inverse pair' % (enc, dec))
-    sep_s = [p.get('name') for p in fs.params if qtype(p) == 'char']
-    sep_l = [p.get('name') for p in fl.params if qtype(p) == 'char']
+        rep.violation('L3', fl, fl.line, 'codec', 'save encodes with %s and load decodes with %s under their flags (not flag-controlled: %s): '
+                      'not an inverse pair under matching flags' % (sorted(set(enc)), sorted(set(dec)), enc_u + dec_u))
+
+    def sep_used(fn, only=None):
+        for g in closure(fn):
+            seps = [p_.get('name') for p_ in g.params if qtype(p_) in ('char', 'const char')]
+            if not seps:
+                continue
+            for x in walk(g.body):
+                if x.get('kind') == 'CallExpr' and (only is None or prog.callee_name(x) == only):
+                    if any(access_path(y) == seps[0] for y in children(x)[1:]):
+                        if only is not None or not any(getattr(c, 'body', None) is not None and c.unit.rel == UNIT
+                                                       for c in prog.callees(g.unit, x)):
+                            return True
+        return False
     rep.instance('L3')
-    used_s = any(access_path(y) == sep_s[0] for x in walk(fs.body) if x.get('kind') == 'CallExpr' for y in children(x)[1:]) if sep_s else False
-    used_l = any(access_path(y) == sep_l[0] for x in walk(fl.body) if x.get('kind') == 'CallExpr' and prog.callee_name(x) == '_q_makeword'
-                 for y in children(x)[1:]) if sep_l else False
+    used_s = sep_used(fs)                      # reaches an output primitive
+    used_l = sep_used(fl, '_q_makeword')       # reaches the splitter
     rep.oblige('L3', used_s and used_l, {'save_uses_separator': used_s, 'load_splits_on_separator': used_l})
     if not (used_s and used_l):
         rep.violation('L3', fl, fl.line, 'separator', 'save and load do not both use their separator parameter')
